@@ -9,6 +9,7 @@ import (
 	"strconv"
 	"strings"
 	"sync"
+	"time"
 
 	"github.com/Shopify/sarama"
 	"github.com/Shopify/sarama/mocks"
@@ -21,6 +22,7 @@ type exp struct {
 	Err  int64 `json:"err"`
 	Chk  int   `json:"chk"` // 0 none 1 pass 2 fail
 	CErr int64 `json:"cerr"`
+	Via  int   `json:"via,omitempty"` // which Expect* variant registers it: 0 WithMessageCheckerFunction, 1 WithCheckerFunction (value checker; only with a checker), 2 plain ExpectXAndSucceed/Fail (only without a checker)
 }
 type msg struct {
 	ID     int64 `json:"id"`
@@ -75,23 +77,74 @@ func errID(e error) int64 {
 	return -999
 }
 
-// scripted partitioner: outcome is carried by the message's Metadata; records (message id, partition count offered)
+// scripted partitioner: outcome is carried by the message's Metadata. partLog records what the mock did with the
+// configured partitioner constructor: the topics it was called with (Ctors) and, per Partition call, the message id,
+// the partition count offered and the topic the instance used had been constructed for (Calls).
+type partLog struct {
+	mu    sync.Mutex
+	Ctors []int64
+	Calls [][3]int64
+}
+
+func (l *partLog) constructor() sarama.PartitionerConstructor {
+	return func(topic string) sarama.Partitioner {
+		l.mu.Lock()
+		l.Ctors = append(l.Ctors, topicIdx(topic))
+		l.mu.Unlock()
+		return scriptedPartitioner{log: l, topic: topicIdx(topic)}
+	}
+}
+
 type scriptedPartitioner struct {
-	seen *[][2]int64
-	mu   *sync.Mutex
+	log   *partLog
+	topic int64
 }
 
 func (p scriptedPartitioner) Partition(m *sarama.ProducerMessage, n int32) (int32, error) {
 	sm := m.Metadata.(msg)
-	p.mu.Lock()
-	*p.seen = append(*p.seen, [2]int64{sm.ID, int64(n)})
-	p.mu.Unlock()
+	p.log.mu.Lock()
+	p.log.Calls = append(p.log.Calls, [3]int64{sm.ID, int64(n), p.topic})
+	p.log.mu.Unlock()
 	if sm.POk {
 		return int32(sm.P), nil
 	}
 	return -1, fmt.Errorf("e%d", sm.PErr)
 }
 func (p scriptedPartitioner) RequiresConsistency() bool { return false }
+
+// monitorPartitioner: the configured partitioner of the message's topic is used, with the configured partition
+// count of that topic, and the constructor runs once per topic.
+func monitorPartitioner(kind string, l *partLog, topicOf map[int64]int, def int32, over map[string]int32) *cf.Monitor {
+	seen := map[int64]bool{}
+	for _, t := range l.Ctors {
+		if seen[t] {
+			return &cf.Monitor{Signature: kind + ":partitioner-constructed-twice", What: fmt.Sprintf("partitioner constructor called twice for topic t%d", t)}
+		}
+		seen[t] = true
+	}
+	for _, c := range l.Calls {
+		t := topicOf[c[0]]
+		if c[2] != int64(t) {
+			return &cf.Monitor{Signature: kind + ":partitioner-of-other-topic", What: fmt.Sprintf("message %d of topic t%d was partitioned by the partitioner constructed for t%d", c[0], t, c[2])}
+		}
+		want := def
+		if n, ok := over[topicName(t)]; ok {
+			want = n
+		}
+		if c[1] != int64(want) {
+			return &cf.Monitor{Signature: kind + ":partition-count", What: fmt.Sprintf("message %d of topic t%d: partitioner offered %d partitions, configured %d", c[0], t, c[1], want)}
+		}
+	}
+	return nil
+}
+
+func coqZ3s(xs [][3]int64) string {
+	var it []string
+	for _, x := range xs {
+		it = append(it, fmt.Sprintf("(%s, %s, %s)", cf.Z(x[0]), cf.Z(x[1]), cf.Z(x[2])))
+	}
+	return cf.List(it)
+}
 
 func topicName(i int) string { return fmt.Sprintf("t%d", i) }
 func topicIdx(s string) int64 {
@@ -102,22 +155,118 @@ func topicIdx(s string) int64 {
 	return v
 }
 
-func addExps(es []exp, add func(c mocks.MessageChecker, succ bool, err error)) {
+// checkLog records every checker call: message id and the msg.Partition the checker could see at that moment.
+// Value checkers only get the encoded value (the id); the harness looks the message up to read its Partition.
+type checkLog struct {
+	mu    sync.Mutex
+	Calls [][2]int64
+	live  map[int64]*sarama.ProducerMessage
+}
+
+func newCheckLog() *checkLog { return &checkLog{live: map[int64]*sarama.ProducerMessage{}} }
+
+func (l *checkLog) message(m msg) *sarama.ProducerMessage {
+	pm := &sarama.ProducerMessage{Topic: topicName(m.Topic), Metadata: m, Partition: -7, Offset: -9, Value: sarama.StringEncoder(strconv.FormatInt(m.ID, 10))}
+	l.mu.Lock()
+	l.live[m.ID] = pm
+	l.mu.Unlock()
+	return pm
+}
+
+type expAPI struct {
+	msgChk func(c mocks.MessageChecker, succ bool, err error)
+	valChk func(c mocks.ValueChecker, succ bool, err error)
+	plain  func(succ bool, err error)
+}
+
+func addExps(es []exp, l *checkLog, api expAPI) {
 	for _, e := range es {
 		e := e
-		var c mocks.MessageChecker
-		switch e.Chk {
-		case 1:
-			c = func(*sarama.ProducerMessage) error { return nil }
-		case 2:
-			c = func(*sarama.ProducerMessage) error { return fmt.Errorf("e%d", e.CErr) }
+		var res error
+		if e.Chk == 2 {
+			res = fmt.Errorf("e%d", e.CErr)
 		}
-		if e.Succ {
-			add(c, true, nil)
-		} else {
-			add(c, false, fmt.Errorf("e%d", e.Err))
+		var serr error
+		if !e.Succ {
+			serr = fmt.Errorf("e%d", e.Err)
+		}
+		switch {
+		case e.Chk == 0 && e.Via == 2:
+			api.plain(e.Succ, serr)
+		case e.Chk == 0:
+			api.msgChk(nil, e.Succ, serr)
+		case e.Via == 1:
+			api.valChk(func(val []byte) error {
+				id, _ := strconv.ParseInt(string(val), 10, 64)
+				l.mu.Lock()
+				p := int64(-998)
+				if pm := l.live[id]; pm != nil {
+					p = int64(pm.Partition)
+				}
+				l.Calls = append(l.Calls, [2]int64{id, p})
+				l.mu.Unlock()
+				return res
+			}, e.Succ, serr)
+		default:
+			api.msgChk(func(m *sarama.ProducerMessage) error {
+				l.mu.Lock()
+				l.Calls = append(l.Calls, [2]int64{m.Metadata.(msg).ID, int64(m.Partition)})
+				l.mu.Unlock()
+				return res
+			}, e.Succ, serr)
 		}
 	}
+}
+
+// setPartitions configures the topic partition counts through both setters, the overrides in two calls
+// (SetPartitions merges into what was set before).
+func setPartitions(tc *mocks.TopicConfig, def int32, over map[string]int32) {
+	a, b := map[string]int32{}, map[string]int32{}
+	i := 0
+	for _, t := range []string{"t0", "t1", "t2", "t3"} {
+		if n, ok := over[t]; ok {
+			if i%2 == 0 {
+				a[t] = n
+			} else {
+				b[t] = n
+			}
+			i++
+		}
+	}
+	tc.SetPartitions(a)
+	tc.SetDefaultPartitions(def)
+	tc.SetPartitions(b)
+}
+
+// watchdog runs f and gives up after a few seconds: nothing the harness does may block.
+func watchdog(f func()) bool {
+	done := make(chan struct{})
+	go func() {
+		defer close(done)
+		f()
+	}()
+	select {
+	case <-done:
+		return true
+	case <-time.After(5 * time.Second):
+		return false
+	}
+}
+
+func coqZ2s(xs [][2]int64) string {
+	var it []string
+	for _, x := range xs {
+		it = append(it, fmt.Sprintf("(%s, %s)", cf.Z(x[0]), cf.Z(x[1])))
+	}
+	return cf.List(it)
+}
+
+// wantChecks: the checker of the i-th expectation, if it has one, sees the i-th message with the partitioner's choice.
+func wantCheck(e exp, m msg) [][2]int64 {
+	if m.POk && e.Chk != 0 {
+		return [][2]int64{{m.ID, m.P}}
+	}
+	return nil
 }
 
 // scriptedOutcome is the property's reading of one (expectation, message) pair: error id (0 = success) and
